@@ -379,7 +379,8 @@ def run_model(lines):
     if not lines:
         return []
     data = "\n".join(" ".join(str(v) for v in l) for l in lines) + "\n"
-    rc, out = sh([model_driver_path()], input=data, timeout=3600)
+    # the extracted model recurses on lists and fuel (not tail-recursive everywhere): no stack limit for it
+    rc, out = sh("ulimit -s unlimited 2>/dev/null || ulimit -s 1000000 2>/dev/null; exec '%s'" % model_driver_path(), input=data, timeout=3600)
     if rc != 0:
         raise RuntimeError("model driver failed: " + out[-1000:])
     res = [[int(t) for t in l.split()] for l in out.strip("\n").split("\n")]
